@@ -10,18 +10,22 @@ import (
 var (
 	baselineOnce sync.Once
 	baselineSet  map[string]bool
+	// function literals per declared function at the pinned commit
+	baselineClosures map[string]int
 )
 
 func baselineFuncs() map[string]bool {
 	baselineOnce.Do(func() {
 		var t struct {
-			Funcs []string `json:"funcs"`
+			Funcs    []string       `json:"funcs"`
+			Closures map[string]int `json:"closures"`
 		}
 		if err := loadTable("baseline_funcs.json", &t); err == nil && len(t.Funcs) > 0 {
 			baselineSet = map[string]bool{}
 			for _, f := range t.Funcs {
 				baselineSet[f] = true
 			}
+			baselineClosures = t.Closures
 		}
 	})
 	return baselineSet
@@ -37,6 +41,7 @@ func runChecker(prop, tier string, P *core.Program) *core.Report {
 		}()
 		Get(prop)(P, R)
 	}()
+	runShared(prop, P, R)
 	return R
 }
 
@@ -49,7 +54,8 @@ func NormalForm(P *core.Program) (*core.Program, int, []string) {
 		return P, 0, []string{"tables/baseline_funcs.json unreadable: no normal form"}
 	}
 	core.InlineOnly = func(key string) bool { return !bl[key] }
-	defer func() { core.InlineOnly = nil }()
+	core.InlineClosuresIn = func(hostKey string, n int) bool { return n > baselineClosures[hostKey] }
+	defer func() { core.InlineOnly, core.InlineClosuresIn = nil, nil }()
 	P2, n, log, err := core.InlinedNormalForm(P.Dir, P.Overlay, P, 4)
 	if err != nil || P2 == nil {
 		return P, 0, append(log, fmt.Sprint("normal form failed: ", err))
